@@ -1216,6 +1216,10 @@ OPNMIDI_EXPORT int opn2_playFormat(OPN2_MIDIPlayer *device, int sampleCount,
                 for(size_t card = 0; card < chips; ++card)
                     synth.m_chips[card]->generateAndMix32(out_buf, (size_t)in_generatedStereo);
             }
+#ifdef OPNMIDI_VERIF
+            if(synth.m_verifTap)
+                synth.m_verifTap(synth.m_verifTapUd, 'G', 0, static_cast<unsigned>(in_generatedStereo), static_cast<unsigned>(n_periodCountStereo), 0);
+#endif
             /* Process it */
             if(SendStereoAudio(sampleCount, in_generatedStereo, out_buf, gotten_len, out_left, out_right, format) == -1)
                 return 0;
@@ -1294,6 +1298,10 @@ OPNMIDI_EXPORT int opn2_generateFormat(struct OPN2_MIDIPlayer *device, int sampl
                 for(size_t card = 0; card < chips; ++card)
                     synth.m_chips[card]->generateAndMix32(out_buf, (size_t)in_generatedStereo);
             }
+#ifdef OPNMIDI_VERIF
+            if(synth.m_verifTap)
+                synth.m_verifTap(synth.m_verifTapUd, 'G', 0, static_cast<unsigned>(in_generatedStereo), static_cast<unsigned>(n_periodCountStereo), 0);
+#endif
             /* Process it */
             if(SendStereoAudio(sampleCount, in_generatedStereo, out_buf, gotten_len, out_left, out_right, format) == -1)
                 return 0;
